@@ -274,7 +274,50 @@ fn boundary_texts() -> (Vec<String>, Vec<String>) {
         ints.push(d.to_string());
         ints.push(format!("-{d}"));
     }
-    let mut floats: Vec<String> = ints.clone().into_iter().filter(|s| !(s.len() > 2 && s.starts_with(['+', '-']) && s.as_bytes()[1] == b'0')).collect();
+    // rounding-critical values 2^(n-1) + t for every bit length n around and above the f64 mantissa: t just below / at / just
+    // above the half ulp, the ulp and their neighbours, in every power-of-two radix (upper and lower case prefixes)
+    let mut radix_floats: Vec<String> = vec![];
+    for n in (54usize..=72).chain([100, 119, 120, 121, 122, 123, 124, 125, 126, 127, 128, 129, 130, 160, 200]) {
+        let ulp_shift = n - 53; // bits below the mantissa
+        let mut tails: Vec<Big> = vec![];
+        let pow = |k: usize| {
+            let mut b = Big::from_u64(1);
+            b.shl(k);
+            b
+        };
+        for base in [ulp_shift.saturating_sub(1), ulp_shift, ulp_shift + 1] {
+            for delta in [-1i32, 0, 1] {
+                let mut t = pow(base);
+                if delta == 1 {
+                    t.add_small(1);
+                } else if delta == -1 {
+                    t = big_minus_one(&t);
+                }
+                tails.push(t.clone());
+                // plus one ulp so that the kept mantissa is odd (ties go the other way)
+                let mut t2 = t;
+                t2 = big_add(&t2, &pow(ulp_shift));
+                tails.push(t2);
+            }
+        }
+        for t in tails {
+            for lead in [1u32, 2, 3, 5, 7] {
+                // leading digit pattern: lead * 2^(n-3) (so hex/octal texts start with different digits), plus the tail
+                let mut v = Big::from_u64(lead as u64);
+                v.shl(n.saturating_sub(3));
+                let v = big_add(&v, &t);
+                radix_floats.push(format!("0x{}", big_to_string(&v, 16)));
+                radix_floats.push(format!("0X{}", big_to_string(&v, 16).to_uppercase()));
+                radix_floats.push(format!("0b{}", big_to_string(&v, 2)));
+                radix_floats.push(format!("0B{}", big_to_string(&v, 2)));
+                radix_floats.push(format!("0{}", big_to_string(&v, 8)));
+                radix_floats.push(big_to_string(&v, 10));
+            }
+        }
+    }
+    radix_floats.sort();
+    radix_floats.dedup();
+    let mut floats: Vec<String> = ints.clone().into_iter().chain(radix_floats).filter(|s| !(s.len() > 2 && s.starts_with(['+', '-']) && s.as_bytes()[1] == b'0')).collect();
     for t in [
         "1e308", "1.7976931348623157e308", "1.7976931348623158e308", "1.7976931348623159e308", "1.8e308", "1e309", "-1e309", "4.9e-324", "5e-324", "2.4703282292062327e-324",
         "2.4703282292062328e-324", "2.5e-324", "1e-400", "2.2250738585072014e-308", "2.2250738585072011e-308", "9007199254740993", "9007199254740992", "9007199254740991",
@@ -283,6 +326,37 @@ fn boundary_texts() -> (Vec<String>, Vec<String>) {
         floats.push(t.to_string());
     }
     (ints, floats)
+}
+
+fn big_minus_one(v: &Big) -> Big {
+    let mut limbs = v.0.clone();
+    for l in limbs.iter_mut() {
+        if *l == 0 {
+            *l = u32::MAX;
+        } else {
+            *l -= 1;
+            break;
+        }
+    }
+    while limbs.last() == Some(&0) {
+        limbs.pop();
+    }
+    Big(limbs)
+}
+
+fn big_add(a: &Big, b: &Big) -> Big {
+    let n = a.0.len().max(b.0.len());
+    let mut out = Vec::with_capacity(n + 1);
+    let mut carry = 0u64;
+    for i in 0..n {
+        let s = *a.0.get(i).unwrap_or(&0) as u64 + *b.0.get(i).unwrap_or(&0) as u64 + carry;
+        out.push(s as u32);
+        carry = s >> 32;
+    }
+    if carry > 0 {
+        out.push(carry as u32);
+    }
+    Big(out)
 }
 
 fn big_to_string(v: &Big, radix: u32) -> String {
